@@ -294,6 +294,37 @@ def translate_mempool():
         if not re.search(pat, n): raise NotTranslatable("QuorumWaiter::run: " + what + " not found")
     return defs, info
 
+def translate_sync():
+    """retry guards of the two synchronizers, and the bookkeeping statements of the consensus one"""
+    defs, info = [], {}
+    cs = strip_comments(open(f"{REPO}/consensus/src/synchronizer.rs").read())
+    body = fn_body(cs, "new")
+    def retry_guard(body, delay, what):
+        c = pick(conds(body, "if"), [r'timestamp', r'now'], what)
+        c2 = re.sub(r'\(\s*' + re.escape(delay) + r'\s+as\s+u128\s*\)', 'DELAY', c)
+        if 'DELAY' not in c2: raise NotTranslatable(f"{what}: `({delay} as u128)` not found in `{c}`")
+        return c, parse(c2, {"timestamp": "timestamp", "DELAY": "delay", "now": "now"})
+    c, t = retry_guard(body, "sync_retry_delay", "consensus Synchronizer timer branch")
+    defs.append(("syncRetryDue", ["timestamp", "delay", "now"], "prop", lean(t, "prop"), f"consensus Synchronizer, timer branch: the request is re-broadcast  (`if {c}`)"))
+    info["syncRetryDue"] = c
+    n = norm(body)
+    for pat, what in [(r'if pending\.insert\(block\.digest\(\)\) \{', "`if pending.insert(block.digest())`"),
+                      (r'if !requests\.contains_key\(&parent\) ?\{', "`if !requests.contains_key(&parent)`"),
+                      (r'requests\.insert\(parent\.clone\(\), now\);', "`requests.insert(parent.clone(), now)`"),
+                      (r'let address = committee \.address\(&author\)', "first request addressed to the block's author"),
+                      (r'network\.send\(address, Bytes::from\(message\)\)\.await;', "`network.send(address, …)`"),
+                      (r'let _ = pending\.remove\(&block\.digest\(\)\);', "`pending.remove(&block.digest())`"),
+                      (r'let _ = requests\.remove\(block\.parent\(\)\);', "`requests.remove(block.parent())`"),
+                      (r'for \(digest, timestamp\) in &requests \{', "`for (digest, timestamp) in &requests`"),
+                      (r'let addresses = committee \.broadcast_addresses\(&name\)', "retry addressed to `broadcast_addresses(&name)`"),
+                      (r'network\.broadcast\(addresses, Bytes::from\(message\)\)\.await;', "`network.broadcast(addresses, …)`")]:
+        if not re.search(pat, n): raise NotTranslatable("consensus Synchronizer: " + what + " not found")
+    ms = strip_comments(open(f"{REPO}/mempool/src/synchronizer.rs").read())
+    c, t = retry_guard(fn_body(ms, "run"), "self.sync_retry_delay", "mempool Synchronizer timer branch")
+    defs.append(("mpRetryDue", ["timestamp", "delay", "now"], "prop", lean(t, "prop"), f"mempool Synchronizer, timer branch: the digest is re-requested  (`if {c}`)"))
+    info["mpRetryDue"] = c
+    return defs, info
+
 def lean_mixed(t):
     """Bool-valued rendering where variables may already be Bool"""
     if t[0] == 'var': return t[1]
@@ -330,6 +361,8 @@ def main():
         defs += d2; info.update(i2)
         d3, i3 = translate_mempool()
         defs += d3; info.update(i3)
+        d4, i4 = translate_sync()
+        defs += d4; info.update(i4)
     except NotTranslatable as e:
         print("NOT-TRANSLATABLE: " + str(e)); sys.exit(3)
     changed = write_if_changed(out, render(defs))
